@@ -1976,6 +1976,52 @@ def server_common(ck, res, pid):
     return sh, binary
 
 
+def overlapping_solves(res, sh, rng, rounds):
+    """request order 'solve before/after other solves': a second strategy is requested while the task of the
+    first one is still running (an odd attack cycle makes the enumeration of complete candidates slow while
+    its answer stays tiny); when nothing runs any more every requested strategy must hold its answer.
+    Judged directly against the definitions (not through the model: the interleaving is the server's)."""
+    import time
+    c = sh.Client()
+    c.register("overlap", "pw"); c.login("overlap", "pw")
+    for r in range(rounds):
+        n = 9 + 2 * (r % 2)
+        names = ["q%d" % i for i in range(n)]
+        text = "".join("s(%s)." % x for x in names) + "".join("ac(%s,neg(%s))." % (names[i], names[(i + 1) % n]) for i in range(n))
+        pname = "ov%d" % r
+        st, body = c.add(pname, text, "Naive")
+        c.wait_idle(pname, limit=60)
+        first = "Complete"
+        others = rng.shuffle(["Ground", "Stable", "StableNogood"])[: 1 + rng.below(2)]
+        t0 = time.time()
+        sts = [c.solve(pname, first)[0]] + [c.solve(pname, o)[0] for o in others]
+        overlap = None
+        st, body = c.get(pname)
+        if st == 200:
+            overlap = any(t.get("content") == first for t in json.loads(body)["running_tasks"])
+        last = c.wait_idle(pname, limit=180)
+        res.extra.setdefault("overlapping_solves", []).append({"statements": n, "strategies": [first] + others, "first_still_running_after_the_others_were_accepted": overlap,
+                                                               "seconds": round(time.time() - t0, 2)})
+        if last is None or last[0] != 200:
+            res.violations.append({"key": "server:overlap:get", "what": "GET after overlapping solves answers %s" % (last and last[0]), "text": text})
+            continue
+        j = json.loads(last[1])
+        o = oracle.AdfOracle(*oracle.parse_adf_text(text))
+        for s_, code in zip([first] + others, sts):
+            if code != 200:
+                continue
+            r_ = j["acs_per_strategy"][STRAT_KEY[s_]]
+            exp = [o.grounded()] if s_ == "Ground" else (o.complete() if s_ == "Complete" else o.stable())
+            if j["running_tasks"]:
+                res.violations.append({"key": "server:running-stale", "what": "tasks still reported as running 180 s after overlapping solves: %s" % j["running_tasks"], "text": text})
+                break
+            if r_["type"] != "Some":
+                res.violations.append({"key": "server:lost-result:" + s_, "what": "the solve request for %s was accepted (200) while %s was running; nothing runs any more but its answer is %s" % (s_, first, r_["type"]),
+                                       "text": text, "requests": ["add %s (Naive)" % pname] + ["solve " + x for x in [first] + others] + ["wait until idle", "get"]})
+            elif sorted(tfu(x["ac"]) for x in r_["content"]) != sorted(exp):
+                res.violations.append({"key": "server:wrong-answer:" + s_, "what": "after overlapping solves the stored models for %s are not the definitional ones" % s_, "text": text})
+
+
 def check_C16(ck, res, replay):
     sh, binary = server_common(ck, res, "C16")
     rng = gen.Rng(res.seed ^ 0xC16)
@@ -2019,6 +2065,7 @@ def check_C16(ck, res, replay):
             run.dump()
             cid = cf.add("SERVER", run.model_lines, meta={"texts": texts})
             runs.append((cid, run, texts))
+            overlapping_solves(res, sh, rng, 2 if quick else 8)
         finally:
             server.close()
         if not quick:
